@@ -188,7 +188,7 @@ func f(l *[4]uint) uint { g(l[:]); return 0 }`, "g,f", false, "writing through a
 	{"array pointer copied", `func f(l *[4]uint) uint { m := l; return m[0] }`, "f", false, "assignment to the array pointer"},
 	{"array pointer passed on", `func g(l *[4]uint) uint { return 0 }
 func f(l *[4]uint) uint { return g(l) }`, "g,f", false, "may only be indexed"},
-	{"array by value", `func f(l [4]uint) uint { return l[0] }`, "f", false, "outside the translated subset"},
+	{"array by value", `func f(l [4]uint) uint { return l[0] }`, "f", true, "def f (l : List (BitVec 64)) : Option (BitVec 64) :=\n  Go.Flow.result (\n  if !(decide (0 < 4)) then Go.Flow.panic else\n  Go.Flow.done (l.getD 0 0#64))"}, // rejected before stage 9
 	{"int8", `func f(a int8, b byte) bool { return a>>1 < int8(b) }`, "f", true, "(BitVec.slt (BitVec.sshiftRight a 1) b)"},
 	{"int8 to uint", `func f(a int8) uint { return uint(a) }`, "f", true, "(BitVec.signExtend 64 a)"},
 	{"trailing zeros", `import "math/bits"
@@ -207,7 +207,7 @@ func f(a int) (int, error) { return a, ErrX }`, "f", false, "may be modified"},
 var ErrX = fmt.Errorf("x")
 func f(a int) (int, error) { return a, ErrX }`, "f", false, "not initialised by errors.New"},
 	{"Errorf without %w", `import "fmt"
-func f(a int) (int, error) { return a, fmt.Errorf("bad %d", a) }`, "f", false, "exactly one %w"},
+func f(a int) (int, error) { return a, fmt.Errorf("bad %d", a) }`, "f", true, `(a, (some "fmt.Errorf(\"bad %d\")"))`}, // rejected before stage 9
 	{"modified package variable", `var tab = []int{1, 2}
 func g() { tab[0] = 5 }
 func f() int { s := 0; for i := range tab { s += tab[i] }; return s }`, "f", false, "may be modified or aliased"},
@@ -415,7 +415,7 @@ func f(a uint) uint { x, y := g(a); return x ^ y }`, "g,f", true, "let st_1 : Bi
 	{"copy into a local", `func f(xs []byte) []byte { r := make([]byte, 2); copy(r, xs); return r }`, "f", true, "(Go.copy r xs)"},
 	{"copy into a parameter that may overlap", `func f(dst, src []byte) { copy(dst, src) }`, "f", false, "may overlap"},
 	{"local array", `func f(i int) byte { var a [4]byte; a[i] = 7; return a[0] }`, "f", true, "let a : List (BitVec 8) := (List.replicate 4 0#8)"},
-	{"array parameter", `func f(l [4]uint) uint { return l[0] }`, "f", false, "outside the translated subset"},
+	{"array parameter (stage 4 case)", `func f(l [4]uint) uint { return l[0] }`, "f", true, "the array parameter `l` (a [4]uint passed by value, read-only here) is a list of length 4"}, // rejected before stage 9
 	// stage 7.1: bits.Len, bits.UintSize, uint(x-1), panic in a uint function, constant shifted by a variable
 	{"bits.Len", `import "math/bits"
 func f(a uint) int { return bits.Len(a) }`, "f", true, "(Go.bitsLen64 a)"},
@@ -698,7 +698,9 @@ func f(s string) int { n := 0; for i, key := range strings.Split(s, "/") { key =
 func f(s, p string) string { if s == "" || s == "m" { return p }; s = strings.TrimPrefix(s, "m/"); return strings.TrimPrefix(s, p) }`, "f", true,
 		"if ((s == ([] : List (BitVec 8))) || (s == ([109#8] : List (BitVec 8)))) then\n    p\n  else\n    let s : List (BitVec 8) := (Go.trimPrefix s ([109#8, 47#8] : List (BitVec 8)))\n    (Go.trimPrefix s p)"},
 	{"strings.TrimSuffix", `import "strings"
-func f(s string) string { return strings.TrimSuffix(s, "m/") }`, "f", false, "unsupported call"},
+func f(s string) string { return strings.TrimSuffix(s, "m/") }`, "f", true, "(Go.trimSuffix s ([109#8, 47#8] : List (BitVec 8)))"}, // rejected before stage 9
+	{"strings.TrimLeft", `import "strings"
+func f(s string) string { return strings.TrimLeft(s, "m/") }`, "f", false, "unsupported call"},
 	{"strings.TrimPrefix of bytes", `import "strings"
 func f(s string, b byte) string { return strings.TrimPrefix(s, b) }`, "f", false, "cannot use b"},
 	{"strings.Split, variable separator", `import "strings"
@@ -827,6 +829,191 @@ func ParsePath(s string) (Path, error) {
 	return path, nil
 }`, "parseUint31,ParsePath", true,
 		"def ParsePath (keyReg_FindStringSubmatch : List (BitVec 8) → List (List (BitVec 8))) (strconv_ParseUint : List (BitVec 8) → BitVec 64 → BitVec 64 → (BitVec 64 × Option String)) (s : List (BitVec 8)) : Option (List (BitVec 32) × Option String) :="},
+	// stage 9.1: library functions that are defined, string concatenation, named string types
+	{"strings.HasPrefix", `import "strings"
+func f(s string) bool { return !strings.HasPrefix(s, "ab") }`, "f", true, "(!(Go.hasPrefix s ([97#8, 98#8] : List (BitVec 8))))"},
+	{"strings.HasSuffix", `import "strings"
+func f(s, p string) bool { return strings.HasSuffix(s[1:], p) }`, "f", true, "if !(decide (1 ≤ s.length)) then Go.Flow.panic else\n  Go.Flow.done (Go.hasSuffix (s.drop 1) p)"},
+	{"strings.Contains", `import "strings"
+func f(s string) bool { return strings.Contains(s, "ab") }`, "f", false, "unsupported call"},
+	{"bytes.HasPrefix", `import "bytes"
+func f(s, p []byte) bool { return bytes.HasPrefix(s, p) }`, "f", false, "unsupported call"},
+	{"bytes.Equal", `import "bytes"
+func f(a, b []byte, n int) bool { return bytes.Equal(a, b[:n]) }`, "f", true, "if !(Go.sliceOK 0#64 n b.length) then Go.Flow.panic else\n  Go.Flow.done (Go.bytesEqual a (b.take n.toNat))"},
+	{"bytes.Equal with nil", `import "bytes"
+func f(a []byte) bool { return bytes.Equal(a, nil) }`, "f", true, "(Go.bytesEqual a ([] : List (BitVec 8)))"},
+	{"bytes.Compare", `import "bytes"
+func f(a, b []byte) int { return bytes.Compare(a, b) }`, "f", false, "unsupported call"},
+	{"bytes.Equal of int8 slices", `import "bytes"
+func f(a []byte, b []int8) bool { return bytes.Equal(a, b) }`, "f", false, "cannot use b"},
+	{"string concatenation", `func f(a, b string) string { return a + "-" + b }`, "f", true, "((a ++ ([45#8] : List (BitVec 8))) ++ b)"},
+	{"string +=", `func f(a, b string) string { s := a; s += b; return s }`, "f", true, "let s : List (BitVec 8) := a\n  (s ++ b)"},
+	{"string comparison <", `func f(a, b string) bool { return a < b }`, "f", false, "unsupported operator <"},
+	{"concatenation of byte slices", `func f(a, b []byte) []byte { return a + b }`, "f", false, "operator + not defined"},
+	{"named string type", `type T string
+const P = T("TR")
+func f(s string, t T) T { return P + T(s) + t }`, "f", true, "((([84#8, 82#8] : List (BitVec 8)) ++ s) ++ t)"},
+	{"named string type to string", `type T string
+func g(s string) int { return len(s) }
+func f(t T) int { return g(string(t)) }`, "g,f", true, "(g t)"},
+	{"string of a byte slice", `func f(b []byte) string { return string(b) }`, "f", false, "would alias the backing array"},
+	{"string of a made byte slice", `func f(n int) string { return string(make([]byte, n)) }`, "f", false, "unsupported conversion"},
+	{"string of an integer", `func f(b int) string { return string(rune(b)) }`, "f", false, "unsupported conversion"},
+	// stage 9.2: blake2b.Sum256 as a parameter, its [32]byte result as a local
+	{"blake2b.Sum256 as a parameter", `import "golang.org/x/crypto/blake2b"
+func f(b []byte) byte { h := blake2b.Sum256(b); return h[31] }`, "f", true,
+		"def f (blake2b_Sum256 : List (BitVec 8) → List (BitVec 8)) (b : List (BitVec 8)) : Option (BitVec 8) :=\n  Go.Flow.result (\n  let h : List (BitVec 8) := (blake2b_Sum256 b)\n  if !(decide (31 < 32)) then Go.Flow.panic else\n  Go.Flow.done (h.getD 31 0#8))"},
+	{"blake2b.Sum256, doc comment and caller", `import "golang.org/x/crypto/blake2b"
+func g(b []byte) int { h := blake2b.Sum256(b[1:]); return len(h) }
+func f(b []byte) int { return g(b) + 1 }`, "g,f", true,
+		"ASSUMED total, pure and to return a list of length 32, see the header, stage 9; passed in by the caller; none = run-time panic -/\ndef f (blake2b_Sum256 : List (BitVec 8) → List (BitVec 8)) (b : List (BitVec 8)) : Option (BitVec 64) :=\n  Go.Flow.result (\n  Go.Flow.bind (Go.call (g blake2b_Sum256 b))"},
+	{"blake2b.Sum256, len is the constant", `import "golang.org/x/crypto/blake2b"
+func f(b []byte) int { h := blake2b.Sum256(b); return len(h) }`, "f", true, "let h : List (BitVec 8) := (blake2b_Sum256 b)\n  32#64"},
+	{"blake2b.Sum512", `import "golang.org/x/crypto/blake2b"
+func f(b []byte) byte { h := blake2b.Sum512(b); return h[0] }`, "f", false, "unsupported call"},
+	{"sha256.Sum256", `import "crypto/sha256"
+func f(b []byte) byte { h := sha256.Sum256(b); return h[0] }`, "f", false, "unsupported call"},
+	{"blake2b.New256", `import "golang.org/x/crypto/blake2b"
+func f(b []byte) int { h, _ := blake2b.New256(nil); h.Write(b); return h.Size() }`, "f", false, "unsupported call blake2b.New256(nil)"},
+	{"variable called like the parameter for blake2b.Sum256", `import "golang.org/x/crypto/blake2b"
+func f(b []byte, blake2b_Sum256 int) int { h := blake2b.Sum256(b); return len(h) + blake2b_Sum256 }`, "f", false, "clashes with the parameter that stands for blake2b.Sum256"},
+	// stage 9.3: arrays as values
+	{"window of an array local, bound checked against N", `import "golang.org/x/crypto/blake2b"
+func g(b []byte) int { return len(b) }
+func f(b []byte, n int) int { h := blake2b.Sum256(b); return g(h[:4]) + g(h[:n]) + g(h[n:]) + g(h[2:n]) }`, "g,f", true,
+		"if !(Go.sliceOK 0#64 4#64 32) then Go.Flow.panic else\n  if !(Go.sliceOK 0#64 n 32) then Go.Flow.panic else\n  if !(Go.sliceFromS n 32) then Go.Flow.panic else\n  if !(Go.sliceOK 2#64 n 32) then Go.Flow.panic else\n  Go.Flow.done ((((g (h.take 4)) + (g (h.take n.toNat))) + (g (h.drop n.toNat))) + (g ((h.drop 2).take (n.toNat - 2))))"},
+	{"window of a zero-valued array local", `func g(b []byte) int { return len(b) }
+func f(n int) int { var a [4]byte; return g(a[:n]) }`, "g,f", true, "if !(Go.sliceOK 0#64 n 4) then Go.Flow.panic else"},
+	{"window of an array field keeps the check against its list", `type T struct { a [4]byte }
+func g(b []byte) int { return len(b) }
+func (c *T) f(n int) int { return g(c.a[:n]) }`, "g,T.f", true, "if !(Go.sliceOK 0#64 n c_a.length) then Go.Flow.panic else"},
+	{"array slice as a value", `import "golang.org/x/crypto/blake2b"
+func f(b []byte) []byte { h := blake2b.Sum256(b); return h[:4] }`, "f", false, "returning a slice expression"},
+	{"array slice bound to a variable", `import "golang.org/x/crypto/blake2b"
+func f(b []byte) int { h := blake2b.Sum256(b); x := h[:4]; return len(x) }`, "f", false, "unsupported expression h[:4]"},
+	{"array parameter", `func f(a [4]byte, i int) byte { return a[i] + a[0] }`, "f", true,
+		"ASSUMPTION (not checked here): the array parameter `a` (a [4]byte passed by value, read-only here) is a list of length 4; none = run-time panic -/\ndef f (a : List (BitVec 8)) (i : BitVec 64) : Option (BitVec 8) :=\n  Go.Flow.result (\n  if !(Go.inRangeS i 4) then Go.Flow.panic else\n  if !(decide (0 < 4)) then Go.Flow.panic else"},
+	{"array parameter, range and len", `func f(a [4]uint) uint { var s uint; for _, v := range a { s += v }; return s + uint(len(a)) }`, "f", true, "s a\n  (s + 4#64)"},
+	{"array parameter, window as an argument", `func g(b []byte) int { return len(b) }
+func f(a [4]byte, n int) int { return g(a[:]) + g(a[n:]) }`, "g,f", true, "if !(Go.sliceFromS n 4) then Go.Flow.panic else\n  Go.Flow.done ((g a) + (g (a.drop n.toNat)))"},
+	{"array parameter passed on", `func g(a [4]byte) byte { return a[1] }
+func f(x []byte) byte { var a [4]byte; copy(a[:], x); return g(a) }`, "g,f", true, "let a : List (BitVec 8) := (Go.copy a x)\n  Go.Flow.bind (Go.call (g a)) (fun (st_1 : BitVec 8) =>"},
+	{"array parameter written", `func f(a [4]byte) byte { a[0] = 1; return a[0] }`, "f", false, "the array parameter `a` is written in the function"},
+	{"array parameter written, !disjoint", `func f(a [4]byte) byte { a[0] = 1; return a[0] }`, "f!disjoint", false, "the array parameter `a` is written in the function"},
+	{"array parameter assigned", `func f(a, b [4]byte) byte { a = b; return a[0] }`, "f", false, "the array parameter `a` is written in the function"},
+	{"array parameter copied into", `func f(a [4]byte, x []byte) byte { copy(a[:], x); return a[0] }`, "f", false, "the array parameter `a` is written in the function"},
+	{"array parameter returned as a slice", `func f(a [4]byte) []byte { return a[:] }`, "f", false, "returning a slice expression"},
+	{"array parameter passed to a callee that writes", `func g(dst []byte) { dst[0] = 1 }
+func f(a [4]byte) byte { g(a[:]); return a[0] }`, "g,f", false, "the array parameter `a` is written in the function"},
+	{"array of strings as a parameter", `func f(a [2]string) int { return len(a[0]) }`, "f", false, "outside the translated subset"},
+	{"array of arrays as a parameter", `func f(a [2][2]byte) byte { return a[0][0] }`, "f", false, "outside the translated subset"},
+	{"address of an array parameter", `func g(p *[4]byte) byte { return p[0] }
+func f(a [4]byte) byte { return g(&a) }`, "g,f", false, "`&` is only supported in"},
+	{"append to the full slice of an array parameter", `import "golang.org/x/crypto/blake2b"
+func f(a [32]byte) []byte { h := blake2b.Sum256(a[:]); return append(a[:], h[:4]...) }`, "f", true,
+		"let h : List (BitVec 8) := (blake2b_Sum256 a)\n  if !(Go.sliceOK 0#64 4#64 32) then Go.Flow.panic else\n  Go.Flow.done (a ++ (h.take 4))"},
+	{"append of elements to the full slice of an array local", `func f(x byte) []byte { var a [2]byte; r := append(a[:], x, 1); r = append(r, 2); return r }`, "f", true, "let r : List (BitVec 8) := (a ++ [x, 1#8])\n  (r ++ [2#8])"},
+	{"append to a window of an array", `func f(a [4]byte, x []byte) []byte { return append(a[:2], x...) }`, "f", false, "only the full slice `a[:]` is supported as the first argument of append"},
+	{"append to the slice of an array that is written", `func f(x []byte) []byte { var a [4]byte; a[0] = 1; return append(a[:], x...) }`, "f", false, "the array `a` is written in this function"},
+	{"append to the slice of an array that is copied into", `func f(x []byte) []byte { var a [4]byte; r := append(a[:], x...); copy(a[:], x); return r }`, "f", false, "the array `a` is written in this function"},
+	{"append to the slice of an array pointer", `func f(p *[4]byte, x []byte) []byte { return append(p[:], x...) }`, "f", false, "unsupported expression p[:]"},
+	{"append to a window of a slice", `func f(x []byte) []byte { r := make([]byte, 4); return append(r[:2], x...) }`, "f", false, "unsupported expression r[:2]"},
+	{"append with a window as the spread argument", `func f(x []byte, n int) []byte { r := []byte{1}; r = append(r, x[n:]...); return r }`, "f", true, "if !(Go.sliceFromS n x.length) then Go.Flow.panic else\n  let r : List (BitVec 8) := (r ++ (x.drop n.toNat))"},
+	{"named results", `import "errors"
+var ErrX = errors.New("x")
+func f(x []byte) (a [4]byte, err error) { if len(x) != 4 { return a, ErrX }; copy(a[:], x); return a, nil }`, "f", true,
+		"the named results `a`, `err` start with the zero value of their type -/\ndef f (x : List (BitVec 8)) : List (BitVec 8) × Option String :=\n  let a : List (BitVec 8) := (List.replicate 4 0#8)\n  let err : Option String := none\n  if ((BitVec.ofNat 64 x.length) != 4#64) then\n    (a, (some \"ErrX\"))\n  else\n    let a : List (BitVec 8) := (Go.copy a x)\n    (a, (none : Option String))"},
+	{"named results, scalars and a slice", `func f(x int) (n int, ok bool, r []byte, s string) { if x > 0 { n = x; ok = true; r = append(r, 1) }; return n, ok, r, s }`, "f", true,
+		"let n : BitVec 64 := 0#64\n  let ok : Bool := false\n  let r : List (BitVec 8) := ([] : List (BitVec 8))\n  let s : List (BitVec 8) := ([] : List (BitVec 8))"},
+	{"named result assigned by a call", `import "errors"
+var ErrX = errors.New("x")
+func g(x []byte) (byte, error) { if len(x) == 0 { return 0, ErrX }; return x[0], nil }
+func f(x []byte) (n int, err error) { b, err := g(x); if err != nil { return n, err }; n = int(b); return n, nil }`, "g,f", true,
+		"let n : BitVec 64 := 0#64\n  let err : Option String := none\n  Go.Flow.bind (Go.call (g x)) (fun (st_1 : BitVec 8 × Option String) =>\n  let b : BitVec 8 := st_1.1\n  let err : Option String := st_1.2"},
+	{"bare return", `func f(x int) (n int) { n = x + 1; return }`, "f", false, "a bare return in a function with named results is not supported (write `return n`)"},
+	{"blank named result", `func f(x int) (_ int, ok bool) { return x, true }`, "f", false, "a blank named result is not supported"},
+	{"named result of an unsupported type", `func f(x int) (m map[int]int) { return nil }`, "f", false, "outside the translated subset"},
+	{"named result called like a Lean keyword", `func f(x int) (at int) { return x }`, "f", false, "clashes with a name used by the generated Lean text"},
+	// stage 9.4: fmt.Errorf without %w
+	{"Errorf without %w and without operands", `import "fmt"
+func f(a int) error { if a > 0 { return fmt.Errorf("too \"big\"") }; return nil }`, "f", true, `(some "fmt.Errorf(\"too \\\"big\\\"\")")`},
+	{"Errorf without %w, operands are evaluated", `import "fmt"
+func f(xs []byte, i int) error { return fmt.Errorf("bad byte %d of '%s'", xs[i], "q") }`, "f", true,
+		"if !(Go.inRangeS i xs.length) then Go.Flow.panic else\n  Go.Flow.done (some \"fmt.Errorf(\\\"bad byte %d of '%s'\\\")\")"},
+	{"Errorf without %w in a function with positioned errors", `import ("fmt"; "errors")
+var ErrX = errors.New("x")
+type E struct { err error; Off int }
+func (e *E) Error() string { return "e" }
+func f(n int) error { if n == 0 { return &E{ErrX, 1} }; return fmt.Errorf("bad %d", n) }`, "f", true, `(some ("fmt.Errorf(\"bad %d\")", none))`},
+	{"Errorf without %w as the wrapped error of a positioned error", `import ("fmt"; "errors")
+var ErrX = errors.New("x")
+type E struct { err error; Off int }
+func (e *E) Error() string { return "e" }
+func f(n int) error { if n == 0 { return &E{ErrX, 1} }; if n == 1 { return ErrX }; return &E{fmt.Errorf("bad %d", n), 2} }`, "f", false, "fmt.Errorf without %w as the wrapped error of &T{…} is not supported"},
+	{"Errorf with a variable format", `import "fmt"
+func f(s string) error { return fmt.Errorf(s) }`, "f", false, "fmt.Errorf with a non-constant format"},
+	{"Errorf with more verbs than operands", `import "fmt"
+func f(a int) error { return fmt.Errorf("bad %d %d", a) }`, "f", false, "more verbs than arguments"},
+	{"Errorf with more operands than verbs", `import "fmt"
+func f(a int) error { return fmt.Errorf("bad %d", a, a) }`, "f", false, "as many verbs as arguments are required"},
+	{"errors.New in a function", `import "errors"
+func f(a int) error { return errors.New("bad") }`, "f", false, "unsupported call"},
+	// stage 9.5: constants and error variables of imported packages
+	{"constants and errors of an imported package", `import "github.com/iotaledger/iota.go/consts"
+func f(n int) (int, error) { if n != consts.HashTrytesSize { return n / consts.TritsPerTryte, consts.ErrInvalidTrytesLength }; return consts.HashTrytesSize / consts.TritsPerTryte, nil }`, "f", true,
+		"if (n != 81#64) then\n    ((BitVec.sdiv n 3#64), (some \"consts.ErrInvalidTrytesLength\"))\n  else\n    (27#64, (none : Option String))"},
+	{"typed constant of an imported package", `import "time"
+func f(n int64) int64 { return n*int64(time.Second) + int64(time.Millisecond) }`, "f", true, "((n * 1000000000#64) + 1000000#64)"},
+	{"byte-typed use of an imported constant", `import "github.com/iotaledger/iota.go/consts"
+func f(b byte) byte { return b + consts.TritsPerTryte }`, "f", true, "(b + 3#8)"},
+	{"variable of an imported package", `import "github.com/iotaledger/iota.go/consts"
+func f() int { return len(consts.NullHashTrytes) }`, "f", false, "unsupported expression consts.NullHashTrytes"},
+	{"division by an imported constant that is zero", `import "github.com/iotaledger/iota.go/consts"
+func f(n int) int { return n / (consts.TritsPerTryte - 3) }`, "f", false, "division by zero"},
+	{"error variable of a package outside the module and iota.go", `import "io"
+func f(n int) error { if n > 0 { return io.EOF }; return nil }`, "f", false, "only packages of the module and of iota.go are supported"},
+	// stage 9.6: pkg/migration and what it calls in iota.go, together
+	{"migration", `import ("bytes"; "fmt"; "strings"
+	"github.com/iotaledger/iota.go/consts"; "github.com/iotaledger/iota.go/trinary"; "golang.org/x/crypto/blake2b")
+const (
+	Ed25519AddressSize = blake2b.Size256
+	ChecksumSize       = 4
+	Prefix             = trinary.Trytes("TRANSFER")
+	Suffix             = "9"
+)
+func isTrytes(trytes trinary.Trytes, length int) bool {
+	if len(trytes) != length || len(trytes) == 0 { return false }
+	for _, runeVal := range trytes { if (runeVal < 'A' || runeVal > 'Z') && runeVal != '9' { return false } }
+	return true
+}
+func enc(src []byte) trinary.Trytes { var dst strings.Builder; for i := range src { dst.WriteByte('A' + src[i]&15); dst.WriteByte('A' + src[i]>>4) }; return dst.String() }
+func dec(src trinary.Trytes) ([]byte, error) {
+	dst := make([]byte, len(src)/2)
+	for i := range dst { dst[i] = (src[2*i] - 'A') | (src[2*i+1]-'A')<<4 }
+	if len(src)%2 != 0 { return nil, consts.ErrInvalidTrytesLength }
+	return dst, nil
+}
+func Encode(addr [Ed25519AddressSize]byte) trinary.Trytes {
+	hash := blake2b.Sum256(addr[:])
+	return Prefix + enc(append(addr[:], hash[:ChecksumSize]...)) + Suffix
+}
+func Decode(trytes trinary.Hash) (addr [Ed25519AddressSize]byte, err error) {
+	if !isTrytes(trytes, consts.HashTrytesSize) { return addr, consts.ErrInvalidTrytesLength }
+	if !strings.HasPrefix(trytes, Prefix) { return addr, fmt.Errorf("expected prefix '%s'", Prefix) }
+	trytes = strings.TrimPrefix(trytes, Prefix)
+	if !strings.HasSuffix(trytes, Suffix) { return addr, fmt.Errorf("expected suffix '%s'", Suffix) }
+	trytes = strings.TrimSuffix(trytes, Suffix)
+	addrTrytesLen := 2 * Ed25519AddressSize * 3 / consts.TritsPerTryte
+	addrBytes, err := dec(trytes[:addrTrytesLen])
+	if err != nil { return addr, fmt.Errorf("invalid address encoding: %w", err) }
+	checksumBytes, err := dec(trytes[addrTrytesLen:])
+	if err != nil { return addr, fmt.Errorf("invalid checksum encoding: %w", err) }
+	hash := blake2b.Sum256(addrBytes)
+	if !bytes.Equal(checksumBytes, hash[:len(checksumBytes)]) { return addr, consts.ErrInvalidChecksum }
+	copy(addr[:], addrBytes)
+	return addr, nil
+}`, "isTrytes,enc,dec,Encode,Decode", true,
+		"def Decode (blake2b_Sum256 : List (BitVec 8) → List (BitVec 8)) (trytes : List (BitVec 8)) : Option (List (BitVec 8) × Option String) :=\n  Go.Flow.result (\n  let addr : List (BitVec 8) := (List.replicate 32 0#8)\n  let err : Option String := none\n"},
 }
 
 func TestLoopTranslator(t *testing.T) {
